@@ -195,6 +195,11 @@ type BFS struct {
 	// Root sharding: at depth 0 only the actions with index % RootShards == RootShard
 	// are expanded (the subtrees below are explored completely by this job).
 	RootShard, RootShards int
+	// SeqDepth > 0 adds a faithful sequential leg: every action sequence of that length
+	// from the root is executed on ONE world from genesis without any restore, so that the
+	// keeper object has seen exactly the transactions of the path (failed ones included) --
+	// as on a node. The same Step/State oracles judge the last step of every sequence.
+	SeqDepth int
 }
 
 // Explore runs the BFS; returns number of distinct states.
@@ -287,7 +292,73 @@ done:
 	if b.ValidatePaths {
 		b.validate(r, all)
 	}
+	if b.SeqDepth > 0 && r.violTotal < 200 {
+		b.sequentialLeg(r)
+	}
 	return len(seen)
+}
+
+// sequentialLeg: stateless enumeration of all action sequences up to SeqDepth.
+func (b *BFS) sequentialLeg(r *Run) {
+	scratch := NewRun(r.Property, r.Tier, r.Seed, r.Shard, r.NShards, r.Deadline)
+	var rec func(prefix []Action)
+	count := 0
+	rec = func(prefix []Action) {
+		if r.Expired() {
+			r.Truncate(r.Job + ": deadline during the sequential leg")
+			return
+		}
+		// re-execute the prefix on a fresh world, judging only the last step with the real Run
+		w := b.Scn.Build(KindDB)
+		node := &Node{Dump: w.Dump()}
+		if b.Init != nil {
+			b.Init(scratch, w, node)
+			node.Dump = w.Dump()
+		}
+		var acts []Action
+		for i, a := range prefix {
+			last := i == len(prefix)-1
+			rr := scratch
+			if last {
+				rr = r
+			}
+			o := w.Apply(a)
+			post := &Node{Dump: w.Dump(), Env: node.Env, Model: node.Model, MKey: node.MKey, Depth: node.Depth + 1}
+			post.Path = append(append([]Action{}, node.Path...), a)
+			keep := true
+			if b.Step != nil {
+				keep = b.Step(rr, node, a, o, w, post)
+			}
+			if last {
+				r.Transitions++
+				r.Class(o.Class())
+				count++
+			}
+			if !keep {
+				return
+			}
+			if b.State != nil && last {
+				// the live world: observations see the keeper that executed this very path (State
+				// hooks that probe do so after a Load, which is fine -- this world is not reused)
+				b.State(rr, post, w)
+			}
+			node = post
+		}
+		if len(prefix) == b.SeqDepth {
+			return
+		}
+		// the menu at this node (needs a world loaded with the node's state; use the live one)
+		acts = b.Actions(node, w)
+		for ai, a := range acts {
+			if len(prefix) == 0 && b.RootShards > 1 && ai%b.RootShards != b.RootShard {
+				continue
+			}
+			rec(append(append([]Action{}, prefix...), a))
+		}
+	}
+	rec(nil)
+	r.addExtra("sequential_leg_sequences", count)
+	r.boundMax("max_sequential_leg_depth", b.SeqDepth)
 }
 
 // validate re-derives states by path replay from genesis on IAVL and compares dumps.
